@@ -676,12 +676,13 @@ impl Ipv6Extensions {
 
         // check if hop by hop header should be written first
         if IPV6_HOP_BY_HOP == next_header {
-            let header = &self.hop_by_hop_options.as_ref().unwrap();
-            writer
-                .write_all(&header.to_bytes())
-                .map_err(WriteError::Io)?;
-            next_header = header.next_header;
-            needs_write.hop_by_hop_options = false;
+            if let Some(ref header) = self.hop_by_hop_options {
+                writer
+                    .write_all(&header.to_bytes())
+                    .map_err(WriteError::Io)?;
+                next_header = header.next_header;
+                needs_write.hop_by_hop_options = false;
+            }
         }
 
         loop {
